@@ -295,7 +295,8 @@ impl Gen {
             8 => {
                 let n = match self.rng.below(8) { 0 => 0, 1 => self.rng.usize_below(5), 2 => self.rng.usize_below(100), 3 => pre.len, 4 => pre.cap.saturating_sub(pre.len), 5 => pre.cap.saturating_sub(pre.len) + 1, 6 => pre.cap + self.rng.usize_below(10), _ => self.rng.usize_below(600) };
                 match self.rng.below(9) {
-                    0 | 1 => Op::Reserve { n },
+                    // (now and then an argument that reserve refuses with its documented panic)
+                    0 | 1 => Op::Reserve { n: if self.rng.chance(1, 12) { match self.rng.below(4) { 0 => usize::MAX, 1 => usize::MAX - pre.len, 2 => (usize::MAX - pre.len).saturating_add(1), _ => usize::MAX / 8 } } else { n } },
                     2 => Op::TryReserve { n },
                     3 => Op::TryReserve { n: match self.rng.below(4) { 0 => usize::MAX, 1 => usize::MAX - pre.len, 2 => (usize::MAX - pre.len).saturating_add(1), _ => usize::MAX / 8 } },
                     4 | 5 => Op::ShrinkTo { n: match self.rng.below(6) { 0 => 0, 1 => pre.len, 2 => pre.cap.saturating_sub(1), 3 => pre.cap + 1, 4 => usize::MAX, _ => self.rng.usize_below(pre.cap + 2) } },
